@@ -86,7 +86,9 @@ def run(ctx):
         o = outs[i]
         cls, r = classify(o)
         T = o['tuples']
-        if r:
+        if o['ub']:
+            what = 'UBSan reported undefined behaviour while the response parser worked on %r (relaxed_header_parser=%d)' % (bytes(o['in'])[:100], o['relaxed'])
+        elif r:
             what = 'response %r (relaxed_header_parser=%d, reply_header_max_size=%d) cut at %s: calls answered %s, one-shot parse answers %s' % (
                 bytes(o['in'])[:100], o['relaxed'], o['limit'], r['cuts'][:12], [str(H.tuple_text(T[x]))[:200] for x in r['mid'][-2:] + [r['fin']]],
                 str(H.tuple_text(T[o['one']]))[:300])
